@@ -169,8 +169,8 @@ def run(ctx):
 
     # ---- E1: I-spec, every schedule of the small configurations; safety everywhere, liveness on the smaller ones
     e1 = ctx.pick([((2, (1, 2), 2, 2, True), False), ((1, (1, 1), 1, 1, False), True)],
-                  [((2, (1, 1, 2), 2, 2, True), False), ((2, (1, 2), 2, 1, False), False),
-                   ((2, (1, 2), 2, 2, True), True), ((1, (1, 1), 2, 1, False), True)])
+                  [((2, (1, 1, 2), 2, 2, True), False), ((2, (1, 1, 2, 2), 1, 1, True), False), ((3, (1, 2, 3), 1, 1, True), False),
+                   ((2, (1, 2), 2, 1, False), False), ((2, (1, 2), 2, 2, True), True), ((1, (1, 1), 2, 1, False), True)])
     cov = {}
     for k, (c, lv) in enumerate(e1):
         r = ctx.tlc('MCSleep', mcfg(c, properties=LIVE if lv else ()), SPEC, name='Sleep-e1-%d' % k, coverage=True,
@@ -184,8 +184,9 @@ def run(ctx):
 
     # ---- E1 + E2: model graph vs complete real-code graph (drift); edge cover of the real graph -> batch
     batch = []          # (segment, replay info) of every real-code trace to validate against the P-spec
-    gconfs = ctx.pick([('a', (1, (1, 1), 1, 1, True)), ('b', (2, (1, 2), 1, 1, True)), ('c', (1, (1,), 1, 1, False))],
-                      [('a', (1, (1, 1), 2, 1, True)), ('b', (2, (1, 2), 1, 2, False)), ('c', (2, (1, 1, 2), 1, 1, True))])
+    gconfs = ctx.pick([('a', (1, (1, 1), 1, 1, True)), ('c', (1, (1,), 1, 1, False))],
+                      [('a', (1, (1, 1), 2, 1, True)), ('b', (2, (1, 2), 1, 2, False)), ('c', (2, (1, 2), 1, 1, True)),
+                       ('d', (1, (1,), 1, 1, False))])
     nondet = []
     for tag, c in gconfs:
         nd = graph_part(ctx, drv, c, tag, batch)
@@ -198,7 +199,7 @@ def run(ctx):
 
     # ---- seeded random schedules: up to 8 waker goroutines
     rconfs = ctx.pick([('3:r8:2:3:r', 150), ('2:r4:3:2:r', 150)],
-                      [('3:r8:2:3:r', 1500), ('2:r4:3:3:r', 1500), ('1:r6:2:2:r', 800)])
+                      [('3:r8:2:3:r', 1000), ('2:r4:3:3:r', 1000), ('1:r6:2:2:r', 500)])
     for k, (rc_, runs) in enumerate(rconfs):
         tp = os.path.join(ctx.work, 'random-%d.ndjson' % k)
         seed = ctx.seed * 1000 + k
@@ -211,8 +212,17 @@ def run(ctx):
 
     # ---- P-level verdict: TLC validates every real-code trace against TraceSleepProp
     segs = [b[0] for b in batch]
-    acc, rej = vlib.validate_segments(ctx, 'TraceSleepProp', TCFG, SPEC, segs, name='ptrace', timeout=3000)
-    ctx.traces += acc
+    rej = []
+    lo = 0
+    while lo < len(segs):          # chunks of at most ~250k events per TLC start
+        hi, n = lo, 0
+        while hi < len(segs) and (hi == lo or n + len(segs[hi]) <= 250000):
+            n += len(segs[hi])
+            hi += 1
+        acc, rj = vlib.validate_segments(ctx, 'TraceSleepProp', TCFG, SPEC, segs[lo:hi], name='ptrace-%d' % lo, timeout=3000)
+        ctx.traces += acc
+        rej += [(lo + si, ln) for si, ln in rj]
+        lo = hi
     ctx.extra['ptrace_events'] = sum(len(s_) for s_ in segs)
     for si, ln in rej:
         seg, info = batch[si]
